@@ -36,6 +36,16 @@ class _DB:
                             if t == en:
                                 std.append(v)
                                 pairs.append((en, v))
+        # independent view of the database: every (reporter cluster, edition) a string is related to,
+        # as an edition name or as a variation, whatever the template
+        related = {}
+        for key, cl in REPORTERS.items():
+            for ci, src in enumerate(cl):
+                for en in src["editions"]:
+                    related.setdefault(en, set()).add((key, ci, en))
+                for v, t in src["variations"].items():
+                    related.setdefault(v, set()).add((key, ci, t))
+        self.related = related
         self.std_all = sorted(set(std))
         # strings that can be written in prose without regex-special surprises
         # ('T.C. at' is listed as a variation of 'T.C.': written out it is literally the short form, so
@@ -50,8 +60,9 @@ class _DB:
                 c["citation_string"]
                 for c in courts
                 if c["citation_string"]
-                and re.fullmatch(r"[A-Za-z0-9 .']+", c["citation_string"])
-                and not re.search(r"\d{4}", c["citation_string"])
+                # parenthetical-safe: no parenthesis/bracket, no 4-digit run (would read as a year),
+                # no leading/trailing blank; non-ASCII punctuation (Att\u2019y) is fine
+                and not re.search(r"[()\[\]]|\d{4}|^\s|\s$|\s\s", c["citation_string"])
             )
         )
         self.cit_extractors = [
@@ -105,6 +116,8 @@ def pinshape(rng, p):
         f"{p}", f"{p}-{p + rng.randint(1, 9)}", f"{p}, {p + 3}", f"{p}-{p + 2}, {p + 5}",
         f"{p}, n. {rng.randint(1, 9)}", f"{p}:{rng.randint(1, 30)}", f"*{p}",
         f"{p}, & n. {rng.randint(1, 9)}", f"p. {p}", f"¶ {p}", f"{p}, nn. 3-4", f"pp. {p}-{p + 2}",
+        f"{p}:{rng.randint(1, 20)}-{rng.randint(21, 40)}", f"{p}:{rng.randint(1, 30)}-{p + 1}:{rng.randint(1, 30)}",
+        f"{p}, note {rng.randint(1, 9)}", f"{p}, fn. {rng.randint(1, 9)}", f"**{p}", f"{p}, pp. {p + 1}-{p + 2}",
     ])
 
 
@@ -175,7 +188,10 @@ def full_frag(rng):
             ["1999", "2005", "1850", "2100", "1599", "1993-94", str(YEARNOW + 1)]) + ")"
     if rng.random() < 0.3:
         s += " (" + rng.choice(["holding x", "overruling Foo (Bar, J.)", "citing 1 U.S. 1",
-                                 "quoting Roe, 410 U.S. at 120"]) + ")"
+                                 "quoting Roe, 410 U.S. at 120",
+                                 f"quoting {name(rng)}, {num(rng)} {rep(rng)} {num(rng)}; {name(rng)} at {num(rng)}, {num(rng)} {rep(rng)} {num(rng)}",
+                                 f"citing {name(rng)} at {num(rng)} and {name(rng)}, supra, at {num(rng)}",
+                                 f"holding that (a) x (quoting {name(rng)} v. {name(rng)}, {num(rng)} {rep(rng)} {num(rng)}) (en banc)"]) + ")"
     return s
 
 
@@ -304,7 +320,7 @@ def test_corpus():
 # ---------------------------------------------------------------------
 # W6(b): marked-up legal text
 
-MK_NAMES = ["Halper", "Bae", "Twombly", "Shalala", "Nobelman", "Mancari", "Morton", "Wingler",
+MK_NAMES = ["May", "Will", "Mark", "Halper", "Bae", "Twombly", "Shalala", "Nobelman", "Mancari", "Morton", "Wingler",
             "Amick", "Zorbex", "Quimby", "Smith", "State", "United States",
             "Bell Atlantic Corp.", "Liberty Mut. Ins. Co.", "Lissner", "Test Corp", "Roe"]
 MK_REPS = ["U.S.", "U. S.", "S.Ct.", "F.3d", "F.2d", "A.2d", "Mass.", "L.Ed.2d"]
@@ -328,6 +344,10 @@ def mk_full(rng):
     cite = f"{vol} {rng.choice(MK_REPS)} {page}"
     if rng.random() < 0.4:
         cite += f", {page + 3}"
+    if rng.random() < 0.3:      # parallel citation(s) sharing the case name
+        cite += f", {rng.randint(1, 600)} {rng.choice(MK_REPS)} {rng.randint(1, 900)}"
+        if rng.random() < 0.3:
+            cite += f", {rng.randint(1, 600)} {rng.choice(MK_REPS)} {rng.randint(1, 900)}"
     cite += f" ({rng.choice(['', '7th Cir. ', 'Pa. '])}{rng.randint(1900, 2020)})"
     if style < 0.4:
         nm = _it(rng, f"{P} v. {D},")
@@ -342,6 +362,10 @@ def mk_full(rng):
 
 def mk_ref(rng, n):
     r = rng.random()
+    if r < 0.12:
+        # an emphasised ordinary word that equals a party name only when case is ignored
+        w = rng.choice([n.lower(), n.upper(), n.swapcase()])
+        return "the court " + _it(rng, w) + " decide, and " + _it(rng, "not") + " otherwise"
     if r < 0.4:
         return "In " + _it(rng, n + rng.choice([",", "", " ", ".", ";", ":"])) + " the court held"
     if r < 0.6:
